@@ -23,7 +23,7 @@ pub fn check() -> Check {
     Check {
         property: "C07",
         level: "exploration",
-        rule: "SecretKeyParams::generate driven from the RNG seam (one ChaCha20 stream per run, optionally with first octets of fill_bytes biased to 0x00/0xFF so that leading-zero scalars, MPIs and signature halves are common) and the clock seam (creation and self-signature times incl. 0, u32::MAX and jumps), over {v4, v6} x primary {Ed25519Legacy, Ed25519, Ed448, ECDSA P-256/P-384/P-521/secp256k1, RSA-2048, DSA-1024/2048} x 0..3 subkeys from {ECDH x4, X25519, X448, RSA, signing subkeys} x locked/unlocked x 0..3 user ids x preference lists; shapes the builder refuses are skipped. Oracle per key: verify_bindings on the secret key and its public half, binary and armored export through sink schedules and import through source schedules give an equal value with equal fingerprint and key id, requested flags and preferences are found in the self-signatures, every signing-capable (sub)key signs and its public half verifies (and nobody else's), every encryption-capable subkey decrypts a SEIPDv1 and a SEIPDv2 message encrypted to it. Non-trivial: always (a fresh key); distinct = (shape, RNG key) hash.",
+        rule: "SecretKeyParams::generate driven from the RNG seam (one ChaCha20 stream per run, optionally with first octets of fill_bytes biased to 0x00/0xFF so that leading-zero scalars, MPIs and signature halves are common) and the clock seam (creation and self-signature times incl. 0, u32::MAX and jumps), over {v4, v6} x primary {Ed25519Legacy, Ed25519, Ed448, ECDSA P-256/P-384/P-521/secp256k1, RSA-2048, DSA-1024/2048} x 0..3 subkeys from {ECDH x4, X25519, X448, RSA, signing subkeys} x locked/unlocked x 0..3 user ids x preference lists; shapes outside the supported set (v6 with the legacy EdDSA / Curve25519 formats, v4 without a user id) are skipped, for every other shape a failing generate() is a violation; subkeys are protected independently of the primary (unprotected, the primary's passphrase, or their own). Oracle per key: verify_bindings on the secret key and its public half, binary and armored export through sink schedules and import through source schedules give an equal value with equal fingerprint and key id, requested flags and preferences are found in the self-signatures, every signing-capable (sub)key signs and its public half verifies (and nobody else's), every encryption-capable subkey decrypts a SEIPDv1 and a SEIPDv2 message encrypted to it. Non-trivial: always (a fresh key); distinct = (shape, RNG key) hash.",
         families: vec![Family { name: "keygen_cheap", gen: gen_cheap, run: run_keygen }, Family { name: "keygen_expensive", gen: gen_expensive, run: run_keygen }],
         assumptions: vec!["builder-rejected shapes are not violations", "fingerprint stability across export/import is recorded as a probe for the unclaimed C13"],
         real: vec!["SecretKeyParams::generate and all per-algorithm key generation", "self-signature and binding creation incl. embedded back signatures", "key (de)serialization and armor", "sign/verify and encrypt/decrypt with the generated keys"],
@@ -61,7 +61,7 @@ fn plan_key(p: &mut Planner, primaries: &[&str], subs: &[&str]) -> Value {
     let subkeys: Vec<Value> = (0..nsub)
         .map(|_| {
             let t = *p.pick(subs);
-            json!({"type": t, "caps": *p.pick(&["all", "comm", "storage"]), "locked": p.chance(1, 4), "auth": p.chance(1, 6)})
+            json!({"type": t, "caps": *p.pick(&["all", "comm", "storage"]), "locked": p.chance(1, 4), "own_pw": p.chance(1, 2), "auth": p.chance(1, 6)})
         })
         .collect();
     let clock = match p.below(10) {
@@ -99,6 +99,33 @@ fn gen_expensive(ctx: &GenCtx) -> Vec<Value> {
 }
 
 const KEY_PW: &str = "generated-key-pw";
+const SUBKEY_PW: &str = "a different passphrase for this subkey";
+
+/// passphrase of subkey plan `s` ("" = not protected): the primary's or one of its own
+fn subkey_pw(s: &Value) -> &'static str {
+    if !jbool(s, "locked") {
+        ""
+    } else if jbool(s, "own_pw") {
+        SUBKEY_PW
+    } else {
+        KEY_PW
+    }
+}
+
+/// Shapes outside "every supported combination": refused by design (RFC 9580: v6 keys do not use the
+/// legacy EdDSA / Curve25519 formats; the builder wants a primary user id on v4 keys).  For every
+/// other shape a failing build or generate() is a violation, not a skip.
+fn shape_supported(plan: &Value) -> bool {
+    let v6 = jbool(plan, "v6");
+    let legacy = |t: &str| matches!(t.trim_start_matches("s:"), "ed25519legacy" | "ecdh25519");
+    if v6 && (legacy(jstr(plan, "primary")) || plan["subkeys"].as_array().into_iter().flatten().any(|s| legacy(jstr(s, "type")))) {
+        return false;
+    }
+    if !v6 && jusize(plan, "uids") == 0 {
+        return false;
+    }
+    true
+}
 
 fn build_params(plan: &Value) -> Result<pgp::composed::SecretKeyParams, String> {
     let version = if jbool(plan, "v6") { KeyVersion::V6 } else { KeyVersion::V4 };
@@ -170,7 +197,7 @@ fn build_params(plan: &Value) -> Result<pgp::composed::SecretKeyParams, String> 
             });
         }
         if jbool(s, "locked") {
-            sb.passphrase(Some(KEY_PW.to_string())).s2k(Some(cheap_s2k(jbool(plan, "v6"), 2 + i as u8)));
+            sb.passphrase(Some(subkey_pw(s).to_string())).s2k(Some(cheap_s2k(jbool(plan, "v6"), 2 + i as u8)));
         }
         b.subkey(sb.build().map_err(|e| e.to_string())?);
     }
@@ -199,7 +226,12 @@ fn run_keygen(plan: &Value, rec: &mut Rec) {
             return;
         }
         Ok(Err(e)) => {
-            rec.count(&format!("skip:builder-rejected:{}", &e[..e.len().min(40)]));
+            if shape_supported(plan) {
+                rec.eval(h.0, true);
+                rec.violation("generation-failed", "params", format!("building the parameters of a supported shape failed: {e}"), plan.clone());
+            } else {
+                rec.count(&format!("skip:builder-rejected:{}", &e[..e.len().min(40)]));
+            }
             return;
         }
         Ok(Ok(p)) => p,
@@ -212,7 +244,12 @@ fn run_keygen(plan: &Value, rec: &mut Rec) {
             return;
         }
         Ok(Err(e)) => {
-            rec.count(&format!("skip:generate-rejected:{}", &e[..e.len().min(48)]));
+            if shape_supported(plan) {
+                rec.eval(h.0, true);
+                rec.violation("generation-failed", "generate", format!("generate() failed for a supported shape ({} {} subkeys={} locked={}): {e}", if jbool(plan, "v6") { "v6" } else { "v4" }, jstr(plan, "primary"), plan["subkeys"], jbool(plan, "locked")), plan.clone());
+            } else {
+                rec.count(&format!("skip:generate-rejected:{}", &e[..e.len().min(48)]));
+            }
             return;
         }
         Ok(Ok(k)) => k,
@@ -374,7 +411,7 @@ fn run_keygen(plan: &Value, rec: &mut Rec) {
         }
         for (i, s) in plan["subkeys"].as_array().into_iter().flatten().enumerate() {
             let t = jstr(s, "type");
-            let spw = Password::from(if jbool(s, "locked") { KEY_PW } else { "" });
+            let spw = Password::from(subkey_pw(s));
             if t.starts_with("s:") {
                 let hash = match t {
                     "s:ed448" => HashAlgorithm::Sha512,
